@@ -146,16 +146,19 @@ def run(tier, seed):
         rid = rep.rule("R2", "an extended-header decoder is called only with data_len >= its registry min_len", 1)
         ed = rep.need(rid, mod.fn("lha_ext_header_decode"), "function lha_ext_header_decode")
         if ed:
-            M = Matcher(ed)
-            calls = [c for c in ed.insts() if c.op == "call" and c.callee is None]
-            rep.check(rid, len(calls) == 1, "one indirect decoder call", ed.file, None, function=ed.cname, obj="sites")
-            for c in calls:
-                ht = ("bind", "ht", ("call", "ext_header_for_num", [("param", 1)]))
-                okc = M.match(("load", ("field", "LHAExtHeaderType", "decoder", ht)), c.calleev, {}) is not None
-                rep.check(rid, okc and all(M.match(("param", k), c.ops[j], {}) is not None for j, k in ((0, 0), (1, 2), (2, 3))), "decoder(header, data, data_len) from the looked-up descriptor", c.where(),
-                          None, function=ed.cname, obj="call")
-                guarded_site(rep, rid, ctx, c, [("data_len >= htype->min_len", ("uge", ("param", 3), ("load", ("field", "LHAExtHeaderType", "min_len", ANY)))),
-                                                ("htype != NULL", ("ne", ("call", "ext_header_for_num", [("param", 1)]), 0))])
+            # decided by evaluating the dispatcher for all 256 type bytes against the registry table as it stands in the code (its own
+            # min_len column): with min_len - 1 bytes no decoder runs, with min_len bytes the registered one does, and it receives
+            # (header, data, data_len) unchanged; unregistered types reach no decoder at all
+            from ..exthdr import registry_entries, evaluate_dispatch
+            ents = registry_entries(mod)
+            if not ents:
+                rep.broken(rid, "registry table ext_header_types not found or not constant-initialised")
+            else:
+                wrong, incon = evaluate_dispatch(mod, ed, {t: (d, ml) for t, d, ml in ents}, safety_only=True)
+                if incon:
+                    rep.broken(rid, "dispatcher not evaluable for type 0x%02x: %s" % incon[0])
+                rep.check(rid, not wrong and not incon, "every decoder of the registry (%d entries) is reached only with data_len >= its min_len" % len(ents), "%s:%s" % (ed.file, ed.line),
+                          "; ".join(wrong[:4]) if wrong else None, function=ed.cname, obj="dispatch")
 
         # ---- R4a realloc publication ------------------------------------------------------------------------
         rid = rep.rule("R4a", "after a successful realloc the new block is stored back to where the old pointer came from on every path to a return", 1)
@@ -227,6 +230,11 @@ def run(tier, seed):
                           function=fn.cname, obj="%s.%s" % fo)
         rep.extra["release_sites_on_fields"] = nrel
         # free(header) only at refcount 0
+        # a header shared with the reader's lists keeps its own reference (otherwise the list dangles after the next advance): rule of C20
+        from .c20 import push_pairing_rules
+        from ..own import Ownership as _Own
+        push_pairing_rules(rep, ctx, mod, _Own(mod, cg), {("LHAReader", "dir_stack"), ("LHAReader", "deferred_symlinks")},
+                           [f for f in mod.defined() if f.file.endswith("lha_reader.c")], prefix="C20.")
         rid = rep.rule("R4c", "lha_file_header_free releases the header only when its reference count has reached zero", 2)
         hf = rep.need(rid, mod.fn("lha_file_header_free"), "function lha_file_header_free")
         if hf:
